@@ -553,6 +553,41 @@ def gen_overlap_block(rnd):
     return out
 
 
+def gen_identity_block(rnd):
+    """Blocks (or sub-blocks between split instructions) whose net effect is the identity, directly or after rules:
+    X+0, X*1, NOT NOT X, X|0, X^0, X&2^256-1, X-0, X/1, SWAPk SWAPk, DUPk POP, PUSH c POP, X&X, X|X.  The optimizer
+    turns them into the empty sequence: the paths for 'nothing left to emit' are otherwise never taken."""
+    nin = rnd.choice([1, 2, 3])
+    frags = [[("PUSH", "0"), ("ADD", None)], [("PUSH", "1"), ("MUL", None)], [("NOT", None), ("NOT", None)],
+             [("PUSH", "0"), ("OR", None)], [("PUSH", "0"), ("XOR", None)], [("PUSH", hexv(MASK)), ("AND", None)],
+             [("PUSH", "0"), ("SWAP1", None), ("SUB", None)], [("PUSH", "1"), ("SWAP1", None), ("DIV", None)],
+             [("DUP1", None), ("AND", None)], [("DUP1", None), ("OR", None)], [("PUSH", hexv(rand_const(rnd))), ("POP", None)],
+             [("PUSH", "0"), ("SWAP1", None), ("SHR", None)] if False else [("PUSH", "0"), ("SHR", None)],
+             [("PUSH", "0"), ("SHL", None)]]
+    out = []
+
+    def piece():
+        r = rnd.random()
+        if r < 0.6:
+            return list(rnd.choice(frags))
+        if r < 0.8 and nin >= 2:
+            k = rnd.randrange(1, nin)
+            return [("SWAP%d" % k, None), ("SWAP%d" % k, None)]
+        k = rnd.randrange(1, nin + 1)
+        return [("DUP%d" % k, None), ("POP", None)]
+    for _ in range(rnd.randrange(1, 4)):
+        out += piece()
+    r = rnd.random()
+    if r < 0.35:
+        # an identity sub-block between split instructions / after a real computation
+        out = [("PUSH", "3"), ("DUP2", None), ("ADD", None), ("PUSH", hexv(rnd.choice(SMALL_ADDRS))), ("MSTORE", None)] + out
+    elif r < 0.5:
+        out = out + [("PUSH", "20"), ("PUSH", "0"), ("LOG0", None)] + piece()
+    elif r < 0.6:
+        out = out + [("PUSH", "1"), ("PUSH", "2"), ("ADD", None)]
+    return out
+
+
 def gen_tradeoff_block(rnd):
     """Fragments with alternatives that trade one cost for another (gas / bytes / instruction count): a value that
     can be duplicated or produced again (2-gas environment reads, zero pushes, one-byte and wide constants), a
@@ -592,8 +627,8 @@ def gen_tradeoff_block(rnd):
 
 
 def gen_block(rnd, kind=None):
-    kind = kind or rnd.choices(["rule", "grammar", "mem", "split", "deep", "dupterms", "symm", "overlap"],
-                               [4, 3, 3, 1.5, 0.7, 1.0, 0.8, 1.2])[0]
+    kind = kind or rnd.choices(["rule", "grammar", "mem", "split", "deep", "dupterms", "symm", "overlap", "identity"],
+                               [4, 3, 3, 1.5, 0.7, 1.0, 0.8, 1.2, 0.6])[0]
     if kind == "rule":
         return gen_rule_block(rnd), kind
     if kind == "grammar":
@@ -637,6 +672,8 @@ def gen_block(rnd, kind=None):
         return gen_tradeoff_block(rnd), kind
     if kind == "overlap":
         return gen_overlap_block(rnd), kind
+    if kind == "identity":
+        return gen_identity_block(rnd), kind
     if kind == "dupterms":
         # the same term computed twice (operands in the other order for commutative operations, repeated loads /
         # hashes / environment reads), then combined or stored: exercises the unification of duplicated instructions
